@@ -308,8 +308,10 @@ def install_wrappers(R):
                                          "call_arg('results_to_df', 'attrs') == attrs and call_arg('results_to_df', 'resources') == resources and "
                                          "call_arg('results_to_df', 'var_names') == var_names)"),
               ("resources_never_recorded", "not called('results_to_ds') or call_arg('results_to_ds', 'constants') == constants"),
+              ("fs_frame", "implies(FnKeepsFS(fn), fs_unchanged())"),
           ],
-          raises={"ValueError": dict(), "AnyError": dict()})
+          raises={"ValueError": dict(ensures=["implies(FnKeepsFS(fn), fs_unchanged())"]), "AnyError": dict(ensures=["implies(FnKeepsFS(fn), fs_unchanged())"])},
+          on_raise=[("fs_frame", "implies(FnKeepsFS(fn), fs_unchanged())")])
 
     R.add(CR + "combo_runner_to_ds@grid", result="V", props=["C03", "C15"],
           fn_params={"fn": dict()},
@@ -345,8 +347,10 @@ def install_wrappers(R):
                "call_kw(old(ncalls()) + t) == sget(call_arg('results_to_df', 'settings'), Ord(shuffle, slen(call_arg('results_to_df', 'settings')), t)) and "
                "sget(call_arg('results_to_df', 'results_linear'), Ord(shuffle, slen(call_arg('results_to_df', 'settings')), t)) == call_ret(old(ncalls()) + t))))"),
               ("resources_never_recorded", "not called('results_to_ds') or call_arg('results_to_ds', 'constants') == constants"),
+              ("fs_frame", "implies(FnKeepsFS(fn), fs_unchanged())"),
           ],
-          raises={"ValueError": dict(), "AnyError": dict()})
+          raises={"ValueError": dict(ensures=["implies(FnKeepsFS(fn), fs_unchanged())"]), "AnyError": dict(ensures=["implies(FnKeepsFS(fn), fs_unchanged())"])},
+          on_raise=[("fs_frame", "implies(FnKeepsFS(fn), fs_unchanged())")])
 
     R.add(CASE + "case_runner_to_ds", result="V", props=["C03"],
           fn_params={"fn": dict()},
